@@ -532,4 +532,192 @@ theorem tryPack_ok {β ν δ : Type} (lib : Lib β ν δ) (m : Msg ν) (heap : H
         · rw [← hb.1]; simp [slice3, List.length_take]; omega
         · rw [← hb.1]; simp [slice3, Slice.reachable]
 
+theorem preflight_ok {β ν δ : Type} (lib : Lib β ν δ) (m : Msg ν) (heap : Heap β) (opt : Option Nat)
+    (h : preflight lib m heap = .ok opt) :
+    0 ≤ m.hdr.rcode ∧ m.hdr.rcode ≤ 0xFFF ∧ selectOPT heap m.extra = (opt, true) ∧
+    ¬ (opt.isNone ∧ m.hdr.rcode > 0xF) ∧ msgLen lib heap m ≤ packBufferSize ∧
+    (∀ s ∈ m.records, ∃ p, s = some p ∧ lib.adm (heap p) = true) := by
+  unfold preflight at h
+  split at h
+  · cases h
+  · rename_i hr
+    split at h
+    · cases h
+    · rename_i hadm
+      split at h
+      · cases h
+      · rename_i o hsel
+        split at h
+        · cases h
+        · rename_i hext
+          split at h
+          · cases h
+          · rename_i hlen
+            cases h
+            refine ⟨by omega, by omega, hsel, hext, by omega, ?_⟩
+            intro s hs
+            simp only [Bool.not_eq_true', Bool.not_eq_false] at hadm
+            have := (List.all_eq_true.mp (by simpa using hadm)) s hs
+            cases s with
+            | none => simp [admSlot] at this
+            | some p => exact ⟨p, rfl, by simpa [admSlot] using this⟩
+
+
+/-! ### `libraryPackImmutable` -/
+
+def swapSlot (p fresh : Nat) (s : Slot) : Slot := if s = some p then some fresh else s
+
+theorem replaceOPT_eq (p fresh : Nat) (l : List Slot) : replaceOPT p fresh l = l.map (swapSlot p fresh) := rfl
+
+theorem isEdns0Rev_swap {β : Type} (heap : Heap β) (p fresh : Nat) :
+    ∀ l : List Slot, (∀ s ∈ l, s ≠ some fresh) → selectOPTRev heap l = (some p, true) →
+      isEdns0Rev (heap.set fresh (heap p)) (l.map (swapSlot p fresh)) = some (some fresh) := by
+  intro l
+  induction l with
+  | nil => intro _ h; simp [selectOPTRev] at h
+  | cons s t ih =>
+    intro hf h
+    obtain ⟨hopt, htype, _, _⟩ := selectOPTRev_some heap _ p true h
+    cases s with
+    | none => simp [selectOPTRev] at h
+    | some q =>
+      by_cases hq : q = p
+      · subst hq
+        simp [swapSlot, isEdns0Rev, Heap.set, htype, hopt]
+      · have hqf : q ≠ fresh := fun e => hf (some q) (by simp) (by rw [e])
+        have hsw : swapSlot p fresh (some q) = some q := by simp [swapSlot, hq]
+        simp only [List.map_cons, hsw, isEdns0Rev, Heap.set, hqf, if_false]
+        unfold selectOPTRev at h
+        by_cases ht : (heap q).hdr.rrtype = typeOPT
+        · cases ho : (heap q).isOPT
+          · simp [ht, ho] at h
+          · simp [ht, ho] at h; exact absurd h hq
+        · simp only [ht, ne_eq, not_false_eq_true, if_true] at h
+          simp only [ht, if_false]
+          exact ih (fun s hs => hf s (by simp [hs])) h
+
+theorem libRecs_swap {β ν δ : Type} (lib : Lib β ν δ) (L : Nat) (heapA heapB : Heap β) (p fresh : Nat)
+    (hp : heapA fresh = heapB p) :
+    ∀ (l : List Slot) (d : δ) (acc : Bytes),
+      (∀ q, some q ∈ l → q ≠ p → heapA q = heapB q) →
+      libRecs lib L heapA (l.map (swapSlot p fresh)) d acc = libRecs lib L heapB l d acc := by
+  intro l
+  induction l with
+  | nil => intro d acc _; rfl
+  | cons s t ih =>
+    intro d acc h
+    cases s with
+    | none => simp [swapSlot, libRecs]
+    | some q =>
+      have hview : (match swapSlot p fresh (some q) with | some x => heapA x | none => heapB q) = heapB q := by
+        by_cases hq : q = p
+        · subst hq; simp [swapSlot, hp]
+        · simp [swapSlot, hq, h q (by simp) hq]
+      by_cases hq : q = p
+      · subst hq
+        simp only [List.map_cons, swapSlot, if_true, libRecs, hp]
+        cases lib.packRR (heapB q) L acc.length d with
+        | fail _ => rfl
+        | ok bs d' _ => exact ih d' _ (fun x hx hxp => h x (by simp [hx]) hxp)
+      · have e : heapA q = heapB q := h q (by simp) hq
+        have hsw : swapSlot p fresh (some q) = some q := by simp [swapSlot, hq]
+        simp only [List.map_cons, hsw, libRecs, e]
+        cases lib.packRR (heapB q) L acc.length d with
+        | fail _ => rfl
+        | ok bs d' _ => exact ih d' _ (fun x hx hxp => h x (by simp [hx]) hxp)
+
+theorem rrLen_swap {β ν δ : Type} (lib : Lib β ν δ) (heapA heapB : Heap β) (p fresh : Nat)
+    (hp : heapA fresh = heapB p) :
+    ∀ (l : List Slot), (∀ q, some q ∈ l → q ≠ p → heapA q = heapB q) →
+      (l.map (swapSlot p fresh)).map (slotLen lib heapA) = l.map (slotLen lib heapB) := by
+  intro l
+  induction l with
+  | nil => intro _; rfl
+  | cons s t ih =>
+    intro h
+    simp only [List.map_cons]
+    rw [ih (fun x hx hxp => h x (by simp [hx]) hxp)]
+    cases s with
+    | none => simp [swapSlot, slotLen]
+    | some q =>
+      by_cases hq : q = p
+      · subst hq; simp [swapSlot, slotLen, hp]
+      · simp [swapSlot, slotLen, hq, h q (by simp) hq]
+
+/-- the message `libraryPackImmutable` hands to the library. -/
+def cloneMsg {ν : Type} (m : Msg ν) (p fresh : Nat) : Msg ν :=
+  { m with answer := replaceOPT p fresh m.answer, ns := replaceOPT p fresh m.ns, extra := replaceOPT p fresh m.extra }
+
+theorem cloneMsg_records {ν : Type} (m : Msg ν) (p fresh : Nat) :
+    (cloneMsg m p fresh).records = m.records.map (swapSlot p fresh) := by
+  simp [cloneMsg, Msg.records, replaceOPT_eq]
+
+theorem libPackWith_heap {β ν δ : Type} (lib : Lib β ν δ) (m : Msg ν) (heap : Heap β) (L : Nat) :
+    (libPackWith lib m heap L).2 = heap ∨
+    ∃ p, isEdns0 heap m.extra = some (some p) ∧ (libPackWith lib m heap L).2 = libSetExt heap p m.hdr.rcode.toNat := by
+  unfold libPackWith
+  by_cases hr : (m.hdr.rcode < 0 ∨ m.hdr.rcode > 0xFFF)
+  · simp [hr]
+  · simp only [hr, if_false]
+    cases he : isEdns0 heap m.extra with
+    | none => simp
+    | some o =>
+      cases o with
+      | none => left; simp only; (repeat' split) <;> rfl
+      | some p => right; refine ⟨p, rfl, ?_⟩; simp only; (repeat' split) <;> rfl
+
+theorem isEdns0_clone {β ν : Type} (m : Msg ν) (heap : Heap β) (p fresh : Nat)
+    (hsel : selectOPT heap m.extra = (some p, true)) (hex : ∀ s ∈ m.extra, s ≠ some fresh) :
+    isEdns0 (heap.set fresh (heap p)) (cloneMsg m p fresh).extra = some (some fresh) := by
+  unfold isEdns0
+  simp only [cloneMsg, replaceOPT_eq, ← List.map_reverse]
+  exact isEdns0Rev_swap heap p fresh _ (fun s hs => hex s (by simpa using hs)) hsel
+
+/-- packing the clone (OPT replaced by a private copy wherever it occurs) gives
+the library's outcome for the original message. -/
+theorem libPack_clone {β ν δ : Type} (lib : Lib β ν δ) (m : Msg ν) (heap : Heap β) (p fresh : Nat)
+    (hsel : selectOPT heap m.extra = (some p, true)) (hfresh : ∀ s ∈ m.records, s ≠ some fresh) :
+    (libPack lib (cloneMsg m p fresh) (heap.set fresh (heap p))).1 = (libPack lib m heap).1 := by
+  have hex : ∀ s ∈ m.extra, s ≠ some fresh := fun s hs => hfresh s (by simp [Msg.records, hs])
+  have hA := isEdns0_clone m heap p fresh hsel hex
+  have hB : isEdns0 heap m.extra = some (some p) := by
+    unfold isEdns0 selectOPT at *
+    rw [isEdns0Rev_eq, hsel]; rfl
+  have hfp : (heap.set fresh (heap p)) fresh = heap p := by simp [Heap.set]
+  -- the two heaps the library packs from agree slot by slot
+  have hp : libSetExt (heap.set fresh (heap p)) fresh m.hdr.rcode.toNat fresh = libSetExt heap p m.hdr.rcode.toNat p := by
+    simp [libSetExt, Heap.set]
+  have hother : ∀ q, some q ∈ m.records → q ≠ p →
+      libSetExt (heap.set fresh (heap p)) fresh m.hdr.rcode.toNat q = libSetExt heap p m.hdr.rcode.toNat q := by
+    intro q hq hqp
+    have hqf : q ≠ fresh := fun e => hfresh (some q) hq (by rw [e])
+    simp [libSetExt, Heap.set, hqf, hqp]
+  have hlen : libBufLen lib (cloneMsg m p fresh) (heap.set fresh (heap p)) = libBufLen lib m heap := by
+    unfold libBufLen libHeap msgLen
+    rw [hA, hB]
+    simp only [cloneMsg_records]
+    have := rrLen_swap lib _ _ p fresh hp m.records hother
+    show headerLen + (List.map lib.qLen m.question).sum + _ + 1 = _
+    rw [show (cloneMsg m p fresh).hdr = m.hdr from rfl, this]
+  have hcomp : msgIsCompressible (cloneMsg m p fresh) = msgIsCompressible m := by
+    simp [msgIsCompressible, cloneMsg, replaceOPT]
+  have hhdr : ∀ b, headerBytes (cloneMsg m p fresh) b = headerBytes m b := by
+    intro b; simp [headerBytes, cloneMsg, replaceOPT]
+  unfold libPack
+  rw [hlen]
+  generalize libBufLen lib m heap = L
+  unfold libPackWith
+  rw [hA, hB]
+  have e1 : (cloneMsg m p fresh).hdr = m.hdr := rfl
+  have e2 : (cloneMsg m p fresh).compress = m.compress := rfl
+  have e3 : (cloneMsg m p fresh).question = m.question := rfl
+  simp only [e1, e2, e3, hcomp, hhdr, cloneMsg_records]
+  split
+  · rfl
+  · split
+    · rfl
+    · split
+      · rfl
+      · exact libRecs_swap lib L _ _ p fresh hp m.records _ _ hother
+
 end SdnsVerif.Lemmas.Packer
